@@ -11,12 +11,10 @@
 -/
 import ShVerif.Proofs.L4Single
 import ShVerif.Proofs.L4Print
+import ShVerif.Model.L4Transcript
 namespace ShVerif.L4
 
-def nls (bs : Bytes) : Nat := bs.count 10
-
-/-- the line of the output on which the next byte goes -/
-def P.cur (p : P) : Nat := 1 + nls (outB p)
+theorem P.cur_eq (p : P) : p.cur = 1 + nls (outB p) := rfl
 
 theorem nls_append (a b : Bytes) : nls (a ++ b) = nls a + nls b := by simp [nls, List.count_append]
 
@@ -91,7 +89,7 @@ theorem R.push' {p q : P} (h : R p q) (x y : Piece) (hb : y.bytes = x.bytes) (l1
   · rw [outB_cons q y { q with out := y :: q.out, line := q.line + nls x.bytes } rfl, outB_cons p x { p with out := x :: p.out, line := l1 } rfl, h.out, hb]
   · show q.line + nls x.bytes = 1 + nls (outB { p with out := x :: p.out, line := l1 })
     rw [outB_cons p x { p with out := x :: p.out, line := l1 } rfl, nls_append, h.line]
-    unfold P.cur
+    rw [P.cur_eq]
     omega
 
 theorem nls_replicate (n : Nat) (c : UInt8) (hc : c ≠ 10) : nls (List.replicate n c) = 0 := by
@@ -100,11 +98,11 @@ theorem nls_replicate (n : Nat) (c : UInt8) (hc : c ≠ 10) : nls (List.replicat
 /-! ### the current line along the primitives -/
 
 theorem cur_gapw (p : P) (b : Bytes) : (p.gapw b).cur = p.cur + nls b := by
-  unfold P.cur
+  rw [P.cur_eq, P.cur_eq]
   rw [outB_cons p (.gap b) (p.gapw b) rfl, nls_append]
   simp [Piece.bytes]; omega
 theorem cur_tok (p : P) (b : Bytes) : (p.tok b).cur = p.cur + nls b := by
-  unfold P.cur
+  rw [P.cur_eq, P.cur_eq]
   rw [outB_cons p (.op b) (p.tok b) rfl, nls_append]
   simp [Piece.bytes]; omega
 theorem cur_space (p : P) : p.space.cur = p.cur := by
@@ -223,15 +221,6 @@ theorem R.decLevel {p q : P} (h : R p q) : R p.decLevel q.decLevel := by
 
 /-! ### words -/
 
-def WordPart.endMax (wp : WordPart) : Nat :=
-  match wp with
-  | .lit _ e _ => e.line
-  | .sgl _ r _ => max r.line wp.stop.line
-
-def partsMax : List WordPart → Nat
-  | [] => 0
-  | wp :: r => max wp.endMax (partsMax r)
-
 theorem wordPartsLoop_eq (p : P) (ps : List WordPart) :
     p.wordPartsLoop ps = { p with line := max p.line (partsMax ps) } := by
   induction ps generalizing p with
@@ -241,12 +230,6 @@ theorem wordPartsLoop_eq (p : P) (ps : List WordPart) :
     cases wp with
     | lit a e v => simp [P.wordPart, P.advanceLine, partsMax, WordPart.endMax, Nat.max_assoc]
     | sgl a e v => simp [P.wordPart, P.advanceLine, partsMax, WordPart.endMax, Nat.max_assoc]
-
-/-- the state in which `p.word w` writes the word: after the continuation line, if any -/
-def P.preWord (p : P) (w : Word) : P :=
-  match w.parts with
-  | [] => p
-  | wp :: _ => if !p.o.singleLine && wp.pos.line > p.line then p.bslashNewl else p
 
 theorem cur_preWord_ge (p : P) (w : Word) : p.cur ≤ (p.preWord w).cur := by
   unfold P.preWord
@@ -300,11 +283,6 @@ theorem R.word {p q : P} (h : R p q) {w w' : Word} (t : TrWord p w w') :
       omega
 
 /-! ### argument lists -/
-
-/-- the continuation decision of the `wordJoin` loop -/
-def P.joinStep (p : P) (any : Bool) (pos : Pos) : P × Bool :=
-  if pos.line > p.line && !p.o.singleLine then ((if !any then p.incLevel else p).bslashNewl, true)
-  else (p, any)
 
 theorem wordJoinLoop_cons (p : P) (any : Bool) (w : Word) (rest : List Word) (pos : Pos)
     (hp : w.pos? = some pos) :
@@ -919,7 +897,7 @@ theorem fin_R {p q : P} (h : R p q) : (q.newline 0).finish = (p.newline 0).finis
 /-- `f'` carries the lines on which printing `f` puts its tokens -/
 def TrFile (o : Opts) (f f' : File) : Prop := TrLoop (P.init o) true f.stmts f'.stmts
 
-theorem cur_pos (p : P) : 1 ≤ p.cur := by unfold P.cur; omega
+theorem cur_pos (p : P) : 1 ≤ p.cur := by rw [P.cur_eq]; omega
 
 /-- **The printer is a fixpoint on transcripts of its own output.** -/
 theorem printFile_fix (o : Opts) (f f' : File) (hsl : o.singleLine = false) (t : TrFile o f f') :
@@ -942,5 +920,115 @@ theorem printFile_fix (o : Opts) (f f' : File) (hsl : o.singleLine = false) (t :
     have e := init_loop o f'.stmts h1
     rw [fin_congr _ _ e.1 e.2]
     exact fin_R (fix_loop f.stmts f'.stmts _ _ true (R.init o hsl) t)
+
+/-! ### the executable transcript check is sound -/
+
+theorem trWordB_sound {p : P} {w w' : Word} (h : trWordB p w w' = true) : TrWord p w w' := by
+  unfold trWordB at h
+  simp only [Bool.and_eq_true, beq_iff_eq] at h
+  obtain ⟨⟨⟨h1, h2⟩, h3⟩, h4⟩ := h
+  refine ⟨?_, h2, ?_, h4⟩
+  · intro e; rw [e] at h1; simp at h1
+  · cases hw : w'.parts with
+    | nil => rw [hw] at h3; simp at h3
+    | cons wp' r => rw [hw] at h3; exact ⟨wp', r, rfl, by simpa using h3⟩
+
+theorem trArgsB_sound : ∀ (ws ws' : List Word) (p : P) (any : Bool), trArgsB p any ws ws' = true → TrArgs p any ws ws'
+  | [], [], _, _, _ => by simp [TrArgs]
+  | [], _ :: _, _, _, h => by simp [trArgsB] at h
+  | _ :: _, [], _, _, h => by simp [trArgsB] at h
+  | w :: rest, w' :: rest', p, any, h => by
+    rw [trArgsB] at h
+    simp only [TrArgs]
+    cases hp : w.pos? with
+    | none => rw [hp] at h; simp at h
+    | some pos =>
+      rw [hp] at h
+      simp only [Bool.and_eq_true] at h
+      exact ⟨pos, rfl, trWordB_sound h.1, trArgsB_sound rest rest' _ _ h.2⟩
+
+theorem trCallB_sound {p : P} {args args' : List Word} (h : trCallB p args args' = true) : TrCall p args args' := by
+  cases args with
+  | nil => simp [trCallB] at h
+  | cons w rest =>
+    cases args' with
+    | nil => simp [trCallB] at h
+    | cons w' rest' =>
+      rw [trCallB] at h
+      simp only [TrCall]
+      cases hp : w.pos? with
+      | none => rw [hp] at h; simp at h
+      | some pos =>
+        rw [hp] at h
+        simp only [Bool.and_eq_true] at h
+        exact ⟨pos, rfl, trArgsB_sound _ _ _ _ h.1, trArgsB_sound _ _ _ _ h.2⟩
+
+theorem trSemiB_sound {p : P} {semi semi' : Pos} {bg : Bool} (h : trSemiB p semi bg semi' = true) :
+    TrSemi p semi bg semi' := by
+  unfold trSemiB at h
+  simp only [Bool.and_eq_true, beq_iff_eq] at h
+  obtain ⟨h1, h2⟩ := h
+  refine ⟨h1, ?_, ?_⟩
+  · intro hv hl
+    have : semi.valid = true ∧ decide (semi.line > p.line) = true := ⟨hv, by simpa using hl⟩
+    rw [if_pos this] at h2
+    simpa using h2
+  · intro hn hb
+    have : ¬ (semi.valid = true ∧ decide (semi.line > p.line) = true) := by
+      intro hh
+      exact hn ⟨hh.1, by simpa using hh.2⟩
+    rw [if_neg this, if_pos hb] at h2
+    simpa using h2
+
+mutual
+theorem trStmtB_sound : ∀ (s s' : Stmt) (p : P), trStmtB p s s' = true → TrStmt p s s'
+  | .mk _ semi neg bg cmd, .mk pos' semi' neg' bg' cmd', p, h => by
+    rw [trStmtB] at h
+    simp only [Bool.and_eq_true, beq_iff_eq] at h
+    obtain ⟨⟨⟨⟨h1, h2⟩, h3⟩, h4⟩, h5⟩ := h
+    simp only [TrStmt]
+    exact ⟨h1, h2, h3, trCmdB_sound cmd cmd' _ h4, trSemiB_sound h5⟩
+theorem trCmdB_sound : ∀ (c c' : Cmd) (p : P), trCmdB p c c' = true → TrCmd p c c'
+  | .call args, c', p, h => by
+    cases c' with
+    | call args' =>
+      rw [trCmdB] at h
+      simp only [TrCmd]
+      exact trCallB_sound h
+    | subshell _ _ _ => simp [trCmdB] at h
+    | block _ _ _ => simp [trCmdB] at h
+    | binary _ _ _ _ => simp [trCmdB] at h
+  | .binary opPos op x y, c', p, h => by
+    cases c' with
+    | call _ => simp [trCmdB] at h
+    | subshell _ _ _ => simp [trCmdB] at h
+    | block _ _ _ => simp [trCmdB] at h
+    | binary opPos' op' x' y' =>
+      rw [trCmdB] at h
+      simp only [Bool.and_eq_true, beq_iff_eq, decide_eq_true_eq] at h
+      obtain ⟨⟨⟨h1, h2⟩, h3⟩, h4⟩ := h
+      simp only [TrCmd]
+      exact ⟨h1, trStmtB_sound x x' _ h2, h3, trStmtB_sound y y' _ h4⟩
+  | .subshell _ _ _, _, _, h => by simp [trCmdB] at h
+  | .block _ _ _, _, _, h => by simp [trCmdB] at h
+end
+
+theorem trLoopB_sound : ∀ (ss ss' : Stmts) (p : P) (first : Bool), trLoopB p first ss ss' = true → TrLoop p first ss ss'
+  | .nil, .nil, _, _, _ => by simp [TrLoop]
+  | .nil, .cons _ _, _, _, h => by simp [trLoopB] at h
+  | .cons _ _, .nil, _, _, h => by simp [trLoopB] at h
+  | .cons s rest, .cons s' rest', p, first, h => by
+    rw [trLoopB] at h
+    simp only [Bool.and_eq_true] at h
+    simp only [TrLoop]
+    exact ⟨trStmtB_sound s s' _ h.1, trLoopB_sound rest rest' _ _ h.2⟩
+
+theorem trFileB_sound {o : Opts} {f f' : File} (h : trFileB o f f' = true) : TrFile o f f' :=
+  trLoopB_sound _ _ _ _ h
+
+/-- **The printer is a fixpoint on transcripts of its own output** (executable hypothesis). -/
+theorem printFile_transcript (o : Opts) (f f' : File) (hsl : o.singleLine = false) (t : trFileB o f f' = true) :
+    printFile o f' = printFile o f :=
+  printFile_fix o f f' hsl (trFileB_sound t)
 
 end ShVerif.L4
